@@ -264,6 +264,60 @@ def check_chip_words(case):
     return {"nontrivial": True}
 
 
+# ------------------------------------------- a tree filled in several rounds
+
+def strat_rounds(tier):
+    def with_limit(limit):
+        return st.fixed_dictionaries({
+            "limit": st.just(limit),
+            "rounds": st.lists(st.lists(piece_strategy("quick", limit),
+                                        min_size=1, max_size=3),
+                               min_size=2, max_size=4)})
+    return st.sampled_from([256, 8, 16, 16, 32, 64]).flatmap(with_limit)
+
+
+def check_rounds(case):
+    """RegionCoreTree is filled by add_core and may be read at any time: each
+    reading selects exactly the cores added so far."""
+    from rig.machine_control import regions
+    with sut("RegionCoreTree"):
+        tree = regions.RegionCoreTree()
+    so_far = {}
+    sizes = []
+    for i, pieces in enumerate(case["rounds"]):
+        new = build_targets({"pieces": pieces})
+        with sut("add_core"):
+            for (x, y), cores in sorted(new.items()):
+                for p in sorted(cores):
+                    if p not in so_far.get((x, y), ()):
+                        tree.add_core(x, y, p)
+        for chip, cores in new.items():
+            so_far.setdefault(chip, set()).update(cores)
+        with sut("get_regions_and_coremasks"):
+            out = list(tree.get_regions_and_coremasks())
+        got = {}
+        for region, mask in out:
+            err = well_formed(int(region), int(mask))
+            require(err is None, "malformed region word: %s" % err,
+                    {"region": hex(int(region)), "mask": hex(int(mask))})
+            expand(int(region), int(mask), got)
+        problems = []
+        for chip in set(got) | set(so_far):
+            want = so_far.get(chip, set())
+            have = got.get(chip, {})
+            for c in set(want) | set(have):
+                if (c in want) != (have.get(c, 0) == 1):
+                    problems.append([list(chip), c, "added" if c in want
+                                     else "never added",
+                                     "selected %d times" % have.get(c, 0)])
+        require(not problems, "reading %d of a tree does not select exactly "
+                "the cores added so far" % (i + 1),
+                {"problems": problems[:8], "rounds": len(case["rounds"])})
+        sizes.append(len(out))
+    return {"nontrivial": len(set(sizes)) > 1,
+            "classes": ["rounds%d" % len(case["rounds"])]}
+
+
 CLAUSES = [
     Clause("targets", check_targets, strategy=strat_targets,
            rule="target sets = unions of 1-5 pieces (sparse chips, rectangles "
@@ -273,6 +327,12 @@ CLAUSES = [
                 "or with a second core mask (a partial collapse)",
            examples={"quick": 2000, "thorough": 6000},
            shards={"quick": 8, "thorough": 16}),
+    Clause("tree-in-rounds", check_rounds, strategy=strat_rounds,
+           rule="a RegionCoreTree filled by add_core in 2-4 rounds of pieces "
+                "and read after every round; non-trivial = two readings "
+                "differ in length",
+           examples={"quick": 300, "thorough": 3000},
+           shards={"quick": 4, "thorough": 16}),
     Clause("chip-words", check_chip_words, enumerate=enum_chip_words,
            exhaustive=True,
            rule="all 65536 chips x 4 levels; one case = one x column",
